@@ -146,6 +146,15 @@ fn cases() -> Vec<Case> {
         case("fs: write and copy of different files", NONE, "", &[one!("(std.fs.write_to_file(\"t/a.txt\", \"A\"), std.fs.copy_file(\"t/a.txt\", \"t/a2.txt\"), std.fs.file_read_to_string(\"t/a2.txt\"))"), one!("(std.fs.write_to_file(\"t/d/b.txt\", \"B\"), std.fs.file_read_to_string(\"t/d/b.txt\"))")], Some(3), false),
         case("fs: directories and files side by side", NONE, "", &[one!("(std.fs.create_dir_all(\"t/x/y\"), std.fs.write_to_file(\"t/x/y/f\", \"F\"), std.fs.file_read_to_string(\"t/x/y/f\"))"), one!("(std.fs.rename(\"t/old.txt\", \"t/new.txt\"), std.fs.file_read_to_string(\"t/new.txt\"), std.fs.remove_file(\"t/new.txt\"))")], Some(3), false),
         case("fs: shared function writing the file it is given", NONE, "shared := (p: string, v: string) -> any { std.fs.write_to_file(p, v); return std.fs.file_read_to_string(p) }", &[one!("(shared(\"t/a.txt\", \"A1\"), shared(\"t/a.txt\", \"A2\"))"), one!("(shared(\"t/b.txt\", \"B1\"), shared(\"t/b.txt\", \"B2\"))")], Some(2), false),
+        // 11. user code must never run while a cell lock is held: functions kept in cells and called
+        //     through the cell, whose bodies (or argument expressions) write cells - the other
+        //     function's cell, their own cell - and operands evaluated next to a cell read
+        case("call through cells: handlers in two cells, each stores into the other", C0, "i1 := () -> int { return 1 }; i2 := () -> int { return 2 }; f := mut i1; g := mut i2; n20 := () -> int { return 20 }; n100 := () -> int { return 100 }; f = () -> int { g = n20; return 10 }; g = () -> int { f = n100; return 200 }; shared := (f, g)", &[("(*(shared.0))()", &["h := *(shared.0)", "h()"]), ("(*(shared.1))()", &["h := *(shared.1)", "h()"])], None, false),
+        case("call through cells: a handler that replaces itself", C0, "later := () -> int { return 2 }; f := mut later; f = () -> int { f = later; return 1 }; shared := f", &[("(*shared)()", &["h := *shared", "h()"]), ("(*shared)()", &["h := *shared", "h()"])], None, false),
+        case("call through cells: recursion through the cell vs replacement", C0, "z := (n: int) -> int { return 0 }; f := mut z; f = (n: int) -> int { if n <= 0 { return 0 }; return n + (*f)(n - 1) }; m1 := (n: int) -> int { return -1 }; shared := (f, m1)", &[("(*(shared.0))(1)", &["h := *(shared.0)", "h(1)"]), one!("{ t := shared.0; t = shared.1 }")], None, false),
+        case("call through cells: the argument writes the cell", C0, "i1 := (n: int) -> int { return n }; f := mut i1; i2 := (n: int) -> int { return n * 10 }; bump := () -> int { f = i2; return 1 }; shared := (f, bump)", &[("(*(shared.0))((shared.1)())", &["h := *(shared.0)", "a := (shared.1)()", "h(a)"]), ("(*(shared.0))(3)", &["h := *(shared.0)", "h(3)"])], None, false),
+        case("cell read next to an operand that writes the cell", C5, "shared := () -> int { c += 1; return 1 }", &[("*c + shared()", &["t := *c", "u := shared()", "t + u"]), one!("c *= 2")], None, false),
+        case("array cell indexed by an expression that writes the cell", CA, "shared := () -> int { c += [1]; return 0 }", &[("(*c)[shared()]", &["t := *c", "i := shared()", "t[i]"]), one!("c += [2]")], None, false),
         // deeper thorough-only explorations
         case("three threads, two ops each (bound 2)", C0, "", &[("{ c += 1; c *= 2 }", &["c += 1", "c *= 2"]), ("{ c += 3; c -= 1 }", &["c += 3", "c -= 1"]), ("{ c *= 3; c += 5 }", &["c *= 3", "c += 5"])], Some(2), true),
         case("two threads, four ops each (bound 3)", C0, "", &[("{ c += 1; c *= 2; c -= 3; c += 7 }", &["c += 1", "c *= 2", "c -= 3", "c += 7"]), ("{ c *= 5; c += 2; c /= 2; c -= 1 }", &["c *= 5", "c += 2", "c /= 2", "c -= 1"])], Some(3), true),
